@@ -305,6 +305,7 @@ pub fn on_callback_event(wd: &World, cb: Cb, _id: u32) {
 }
 
 pub fn collection_starting(wd: &World, explicit: bool) {
+    wd.feature(FT_COLL, 1, explicit as u64);
     wd.in_collection.set(true);
     wd.coll_drop_phase.set(false);
     wd.coll_cb_events.set(0);
@@ -327,6 +328,7 @@ pub fn collection_starting(wd: &World, explicit: bool) {
 }
 
 pub fn collection_finished(wd: &World, normal: bool) {
+    wd.feature(FT_COLL, 2, normal as u64 | (wd.coll_finalizers.get().min(3)) << 1 | (wd.coll_resurrected.get() as u64) << 3);
     bump_max(&wd.stats.finalizers_in_one_collection_max, wd.coll_finalizers.get());
     let scramble = !normal || wd.coll_mutated.get();
     wd.tlog(|| format!("  [model] collection finished (normal {}, scramble {})", normal, scramble));
@@ -572,6 +574,7 @@ pub fn on_cleaner_marker(wd: &World, id: u32, exit: bool) {
 
 /// State right after a panic was caught at the API boundary (C07).
 pub fn after_unwind(wd: &World, what: &str) {
+    wd.feature(FT_UNWIND, what.bytes().fold(0u64, |h, b| h.wrapping_mul(31).wrapping_add(b as u64)), wd.in_collection.get() as u64);
     if wd.fault_obj_mark.get() == u32::MAX {
         wd.fault_obj_mark.set(wd.m.borrow().objs.len() as u32);
     }
@@ -1559,6 +1562,59 @@ pub fn check_qp(wd: &World, at: &str) {
     }
     if wd.mode.get().state_hash {
         state_hash(wd);
+    }
+    if wd.feat_on.get() {
+        qp_features(wd);
+    }
+}
+
+/// State-shape features of the reachable heap (evolve generator feedback; coverage only, never a verdict):
+/// per object a class built from its hidden state and its model role, per edge the classes of both ends.
+fn qp_features(wd: &World) {
+    let Ok(m) = wd.m.try_borrow() else { return };
+    fn class(c: &Cc<Node>, m: &Model) -> u64 {
+        let sn = verif::object_snapshot(c);
+        let mut k = (sn.counter.min(3) as u64) | (sn.tracing_counter.min(3) as u64) << 2 | (sn.mark as u64) << 4 | (sn.finalized as u64) << 6 | (sn.has_side_record as u64) << 7;
+        if let Some(o) = m.obj(c.id) {
+            let (wa, wb) = m.weak_holders(c.id);
+            k |= ((wa + wb).min(2) as u64) << 8;
+            k |= (o.actions.iter().filter(|a| !a.done).count().min(2) as u64) << 10;
+            k |= (o.resurrected as u64) << 12 | (o.cyclic as u64) << 13 | (o.born_in_finalizer as u64) << 14 | ((!o.spec.fin.is_empty()) as u64) << 15;
+            k |= (match o.buffered { Tri::In => 1u64, Tri::Out => 0, Tri::Unk => 2 }) << 16;
+        }
+        k
+    }
+    fn visit(n: &Node, kn: u64, m: &Model, seen: &mut HashSet<u32>, wd: &World, depth: usize) {
+        if n.canary_state() != CanaryState::Good || !seen.insert(n.id) || depth > 12 {
+            return;
+        }
+        for (si, s) in n.t.iter().chain(n.h.iter()).chain(std::iter::once(&*n.md)).enumerate() {
+            let Ok(b) = s.try_borrow() else { continue };
+            if let Some(c) = b.as_ref() {
+                let kc = class(c, m);
+                wd.feature_flat(FT_OBJ, kc, 0);
+                wd.feature_flat(FT_EDGE, kn & 0xFF, (kc & 0xFF) | (si as u64) << 8 | ((c.id == n.id) as u64) << 12);
+                let p: *const Node = &**c;
+                visit(unsafe { &*p }, kc, m, seen, wd, depth + 1);
+            }
+        }
+    }
+    let mut seen = HashSet::new();
+    for c in wd.r.iter().chain(wd.g.iter()) {
+        let Ok(b) = c.try_borrow() else { continue };
+        if let Some(cc) = b.as_ref() {
+            let k = class(cc, &m);
+            wd.feature_flat(FT_OBJ, k, 1);
+            let p: *const Node = &**cc;
+            visit(unsafe { &*p }, k, &m, &mut seen, wd, 0);
+        }
+    }
+    if let Some(b) = verif::buffer_walk(16) {
+        let mut code = b.nodes.len().min(5) as u64;
+        for n in b.nodes.iter().take(4) {
+            code = code << 6 | (n.snapshot.counter.min(3) as u64) | (n.snapshot.tracing_counter.min(3) as u64) << 2 | (n.snapshot.finalized as u64) << 4 | (n.snapshot.has_side_record as u64) << 5;
+        }
+        wd.feature_flat(FT_BUF, code, 0);
     }
 }
 
